@@ -417,6 +417,11 @@ def analyse_unit(name, canary=False, rlimit=None, seed=None):
                 obls[oid] = {"id": oid, "fn": k, "kind": "overlay", "props": overlay_props[k],
                              "text": "overlay lemma/driver `%s` (postcondition is a sentence of the property)" % k,
                              "src": "specs/" + name + ".vspec", "status": "discharged"}
+    fn_base = meta.get("fn_base", {})
+    for o in obls.values():
+        extra_p = fn_base.get(o["fn"], [])
+        if extra_p:
+            o["props"] = sorted(set(o["props"]) | set(extra_p))
     res["obligations"] = list(obls.values())
     res["fns"] = list(own.values())
     return res
